@@ -107,3 +107,97 @@ package kvindex
 //@   requires finite: !isnan(f)
 //@   ensures str: astr(GetBytesTerm(GetTermBytes(AStr(s)).0, GetTermBytes(AStr(s)).1)) == s
 //@   ensures num: same(anum(GetBytesTerm(GetTermBytes(ANum(f)).0, GetTermBytes(ANum(f)).1)), f)
+
+// ---- C09: key builders and parsers are inverse; prefixes select exactly one term ----
+// Code lemmas: the expressions call the real builders and parsers (executed from their
+// SSA); bytes.Join/Split/SplitN and slicing follow the library model of keys.smt2 and
+// idxkeys.smt2. Field names and document ids are NUL-free; string terms are NUL-free;
+// number terms are any 8 bytes.
+
+//@ lemma idxkeys.field.roundtrip
+//@   property C09
+//@   option prelude=keys,idxkeys
+//@   option pkg=kvindex
+//@   option globals=kvindex
+//@   params f:string
+//@   requires nozero(f)
+//@   ensures rt: FieldKeyParse(FieldKey(f)) == f
+
+//@ lemma idxkeys.term.roundtrip
+//@   property C09
+//@   option prelude=keys,idxkeys
+//@   option pkg=kvindex
+//@   option globals=kvindex
+//@   params f:string t:bytes
+//@   requires nozero(f)
+//@   ensures sfield: TermKeyParse(TermKey(f, TermString, t)).0 == f
+//@   ensures stype: TermKeyParse(TermKey(f, TermString, t)).1 == TermString
+//@   ensures sterm: TermKeyParse(TermKey(f, TermString, t)).2 == t
+//@   ensures nfield: TermKeyParse(TermKey(f, TermNumber, t)).0 == f
+//@   ensures ntype: TermKeyParse(TermKey(f, TermNumber, t)).1 == TermNumber
+//@   ensures nterm: TermKeyParse(TermKey(f, TermNumber, t)).2 == t
+
+//@ lemma idxkeys.entry.roundtrip.string
+//@   property C09
+//@   option prelude=keys,idxkeys
+//@   option pkg=kvindex
+//@   option globals=kvindex
+//@   params f:string t:bytes d:string
+//@   requires nozero(f) && nozero(t) && nozero(d)
+//@   ensures field: EntryKeyParse(EntryKey(f, TermString, t, d)).0 == f
+//@   ensures type: EntryKeyParse(EntryKey(f, TermString, t, d)).1 == TermString
+//@   ensures term: EntryKeyParse(EntryKey(f, TermString, t, d)).2 == t
+//@   ensures doc: EntryKeyParse(EntryKey(f, TermString, t, d)).3 == d
+
+//@ lemma idxkeys.entry.roundtrip.number
+//@   property C09
+//@   option prelude=keys,idxkeys
+//@   option pkg=kvindex
+//@   option globals=kvindex
+//@   params f:string t:bytes d:string
+//@   requires nozero(f) && len(t) == 8 && nozero(d)
+//@   ensures field: EntryKeyParse(EntryKey(f, TermNumber, t, d)).0 == f
+//@   ensures type: EntryKeyParse(EntryKey(f, TermNumber, t, d)).1 == TermNumber
+//@   ensures term: EntryKeyParse(EntryKey(f, TermNumber, t, d)).2 == t
+//@   ensures doc: EntryKeyParse(EntryKey(f, TermNumber, t, d)).3 == d
+
+//@ lemma idxkeys.layout
+//@   property C09
+//@   option prelude=keys,idxkeys
+//@   option pkg=kvindex
+//@   option globals=kvindex
+//@   params f:string t:bytes d:string
+//@   ensures field: FieldKey(f) == fieldKeyOf(f)
+//@   ensures sterm: TermKey(f, TermString, t) == termKeyOf(f, TermString, t)
+//@   ensures nterm: TermKey(f, TermNumber, t) == termKeyOf(f, TermNumber, t)
+//@   ensures sentry: EntryKey(f, TermString, t, d) == entryKeyOf(f, TermString, t, d)
+//@   ensures nentry: EntryKey(f, TermNumber, t, d) == entryKeyOf(f, TermNumber, t, d)
+//@   ensures doc: DocKey(d) == docKeyOf(d)
+//@   ensures svalprefix: EntryValuePrefix(f, TermString, t) == entryValuePrefixOf(f, TermString, t)
+//@   ensures nvalprefix: EntryValuePrefix(f, TermNumber, t) == entryValuePrefixOf(f, TermNumber, t)
+
+// The scan prefix of one (field, term) matches exactly the entries of that field and
+// that term (string terms): a document indexed under "Anna" is not a match for "Ann".
+//@ lemma idxkeys.prefix.entryvalue
+//@   property C09
+//@   option prelude=keys,idxkeys
+//@   option pkg=kvindex
+//@   option globals=kvindex
+//@   params f:string f2:string t:bytes t2:bytes d:string
+//@   requires nozero(f) && nozero(f2) && nozero(t) && nozero(t2) && nozero(d)
+//@   ensures exact: hasprefix(EntryKey(f2, TermString, t2, d), EntryValuePrefix(f, TermString, t)) <==> (f == f2 && t == t2)
+//@   ensures types: !hasprefix(EntryKey(f2, TermNumber, t2, d), EntryValuePrefix(f, TermString, t))
+
+// Every term key of a field lies under the field's term prefix, every entry key under
+// its entry prefix, and no key of another field does.
+//@ lemma idxkeys.prefix.field
+//@   property C09
+//@   option prelude=keys,idxkeys
+//@   option pkg=kvindex
+//@   option globals=kvindex
+//@   params f:string f2:string t:bytes d:string
+//@   requires nozero(f) && nozero(f2) && nozero(t) && nozero(d)
+//@   ensures terms: hasprefix(TermKey(f2, TermString, t), TermPrefix(f)) <==> f == f2
+//@   ensures entries: hasprefix(EntryKey(f2, TermString, t, d), EntryPrefix(f)) <==> f == f2
+//@   ensures termtype: hasprefix(TermKey(f2, TermString, t), TermTypePrefix(f, TermString)) <==> f == f2
+//@   ensures termtypes: !hasprefix(TermKey(f2, TermNumber, t), TermTypePrefix(f, TermString))
